@@ -1,16 +1,41 @@
 (* MemoryPersister model against the store contract. *)
-From Coq Require Import NArith List Bool Lia.
+From Coq Require Import PeanoNat NArith List Bool Lia.
 From F8 Require Import C26.SMap C26.SMapProofs C26.PersistSpec C26.PersistProofs C26.Spec_C26 C26.MemPersist.
 Import ListNotations.
 Local Open Scope N_scope.
 
 Definition idb (b : list byte) : list byte := b.
 
-(* [present]: key 0 (the control record) is in the map *)
-Record minv (st : mstate) (sp : spec) (present : bool) : Prop := {
+(* ---- little endian ---- *)
+Lemma le_enc_length : forall n v, length (le_enc n v) = n.
+Proof. induction n; intros; cbn [le_enc length]; auto. Qed.
+
+Lemma le_dec_enc : forall n v, v < 256 ^ N.of_nat n -> le_dec (le_enc n v) = v.
+Proof.
+  induction n as [|n IH]; intros v H.
+  - cbn in *. lia.
+  - cbn [le_enc le_dec]. rewrite IH.
+    + pose proof (N.div_mod v 256). lia.
+    + rewrite Nat2N.inj_succ, N.pow_succ_r' in H.
+      apply N.div_lt_upper_bound; lia.
+Qed.
+
+Lemma dec_ctl_enc : forall s t, s < LIM -> t < LIM -> dec_ctl (le_enc 4 s ++ le_enc 4 t) = (s, t).
+Proof.
+  intros s t Hs Ht. assert (LIM = 2147483648) by reflexivity. unfold dec_ctl.
+  rewrite firstn_app, le_enc_length, Nat.sub_diag, firstn_O, app_nil_r.
+  rewrite (firstn_all2 (le_enc 4 s)) by (rewrite le_enc_length; lia).
+  rewrite skipn_app, le_enc_length, Nat.sub_diag, skipn_O.
+  rewrite (skipn_all2 (le_enc 4 s)) by (rewrite le_enc_length; lia). cbn [app].
+  rewrite (firstn_all2 (le_enc 4 t)) by (rewrite le_enc_length; lia).
+  rewrite !le_dec_enc by (cbn; lia). reflexivity.
+Qed.
+
+(* the abstraction: messages = entries other than key 0, control record = the 8 bytes under key 0 *)
+Record minv (st : mstate) (sp : spec) : Prop := {
   mi_sorted : ssorted st;
   mi_msgs : s_msgs sp = absm idb st;
-  mi_ctl : if present then sfind 0 st <> None else sfind 0 st = None /\ s_ctl sp = None;
+  mi_ctl : s_ctl sp = option_map dec_ctl (sfind 0 st);
   mi_bound : forall k v, sfind k st = Some v -> k < LIM
 }.
 
@@ -26,99 +51,96 @@ Qed.
 Lemma spec_eta : forall sp, sp = {| s_msgs := s_msgs sp; s_ctl := s_ctl sp |}.
 Proof. intros []; reflexivity. Qed.
 
-Lemma mem_step_refines : forall st sp present o,
-  minv st sp present -> op_bounded o = true -> op_zero_free o = true ->
-  mem_ctl_ok_from present [o] = true ->
-  exists st' present',
-    mem_step st o = Some (st', snd (spec_step sp o)) /\
-    minv st' (fst (spec_step sp o)) present' /\
-    (forall r, mem_ctl_ok_from present (o :: r) = true -> mem_ctl_ok_from present' r = true).
+Lemma mem_step_refines : forall st sp o,
+  minv st sp -> op_bounded o = true -> op_zero_free o = true ->
+  exists st', mem_step st o = Some (st', snd (spec_step sp o)) /\ minv st' (fst (spec_step sp o)).
 Proof.
-  intros st sp present o [S M C B] Hb Hz Hc.
+  intros st sp o [S M C B] Hb Hz.
   assert (LIM = 2147483648) as HL by reflexivity. assert (W32 = 4294967296) as HW by reflexivity.
-  destruct o as [seq b|seq|s t| | |req last|from to abort| ]; cbn [mem_step spec_step].
+  destruct o as [seq b|seq|s t| | |req last|from to abort| ];
+    unfold mem_step; cbn [mem_step_gen spec_step].
   - (* put *)
     destruct (N.eqb_spec seq 0).
-    + exists st, present. cbn [fst snd]. repeat split; auto.
+    + exists st. cbn [fst snd]. split; [reflexivity|]. split; auto.
     + rewrite M. rewrite sfind_absm by auto. destruct (sfind seq st) eqn:E; cbn [option_map].
-      * rewrite (sinsert_some seq b st l S E). exists st, present. cbn [fst snd].
-        repeat split; auto.
+      * rewrite (sinsert_some seq b st l S E). exists st. cbn [fst snd]. split; [reflexivity|]. split; auto.
       * pose proof (sinsert_none seq b st E) as Hs.
         pose proof (fun j => sfind_sinsert_none j seq b st E) as Hfi.
         pose proof (ssorted_sinsert seq b st S) as Hso. pose proof (absm_sinsert idb seq b st n) as Ha.
         destruct (sinsert seq b st) as [m bb]. cbn [fst snd] in *. subst bb.
-        exists m, present. repeat split; auto.
-        -- cbn [s_ctl]. rewrite (Hfi 0). destruct (N.eqb_spec 0 seq); [congruence|]. exact C.
+        exists m. split; [reflexivity|]. split; cbn [s_msgs s_ctl]; auto.
+        -- rewrite (Hfi 0). destruct (N.eqb_spec 0 seq); [congruence|]. exact C.
         -- intros k v. rewrite Hfi. destruct (N.eqb_spec k seq).
            ++ intros _. subst. cbn in Hb. apply N.ltb_lt in Hb. exact Hb.
            ++ apply B.
   - (* get *)
-    exists st, present. destruct (N.eqb_spec seq 0); cbn [fst snd].
-    + repeat split; auto.
+    exists st. destruct (N.eqb_spec seq 0); cbn [fst snd].
+    + split; [reflexivity|]. split; auto.
     + rewrite M. rewrite sfind_absm by auto. destruct (sfind seq st); cbn [option_map idb];
-      repeat split; auto.
-  - (* control put: only when no control record is present *)
-    cbn in Hc. destruct present; [discriminate|]. destruct C as [C1 C2].
-    pose proof (sinsert_none 0 (le_enc 4 s ++ le_enc 4 t) st C1) as Hs.
-    pose proof (fun j => sfind_sinsert_none j 0 (le_enc 4 s ++ le_enc 4 t) st C1) as Hfi.
-    pose proof (ssorted_sinsert 0 (le_enc 4 s ++ le_enc 4 t) st S) as Hso.
-    pose proof (drop0_sinsert0 (le_enc 4 s ++ le_enc 4 t) st S C1) as Hd.
-    destruct (sinsert 0 (le_enc 4 s ++ le_enc 4 t) st) as [m bb]. cbn [fst snd] in *. subst bb.
-    exists m, true. repeat split; auto.
-    + cbn [s_msgs]. rewrite M. unfold absm. rewrite Hd. reflexivity.
-    + rewrite (Hfi 0). cbn. discriminate.
-    + intros k v. rewrite Hfi. destruct (N.eqb_spec k 0); [intros; lia|apply B].
-  - (* control get: only when no control record is present *)
-    cbn in Hc. destruct present; [discriminate|]. destruct C as [C1 C2].
-    rewrite C1, C2. exists st, false. cbn [fst snd]. repeat split; auto.
+      (split; [reflexivity|]); split; auto.
+  - (* control put: erase(0), then insert: the record is replaced, the call returns true *)
+    cbn in Hb. apply andb_true_iff in Hb. destruct Hb as [Hb1 Hb2]. apply N.ltb_lt in Hb1, Hb2.
+    rewrite (serase0_drop0 st S).
+    set (v := le_enc 4 s ++ le_enc 4 t).
+    assert (S0 : ssorted (drop0 st)) by (apply ssorted_drop0'; auto).
+    assert (F0 : sfind 0 (drop0 st) = None) by (apply sfind0_drop0; auto).
+    pose proof (sinsert_none 0 v (drop0 st) F0) as Hs.
+    pose proof (fun j => sfind_sinsert_none j 0 v (drop0 st) F0) as Hfi.
+    pose proof (ssorted_sinsert 0 v (drop0 st) S0) as Hso.
+    pose proof (drop0_sinsert0 v (drop0 st) S0 F0) as Hd.
+    destruct (sinsert 0 v (drop0 st)) as [m bb]. cbn [fst snd] in *. subst bb.
+    exists m. split; [reflexivity|]. split; cbn [s_msgs s_ctl]; auto.
+    { rewrite M. unfold absm. rewrite Hd, (drop0_id _ F0). reflexivity. }
+    { rewrite (Hfi 0). cbn [N.eqb option_map]. unfold v. rewrite dec_ctl_enc by auto. reflexivity. }
+    { intros k w. rewrite Hfi. destruct (N.eqb_spec k 0); [intros; lia|].
+      rewrite sfind_drop0 by auto. apply B. }
+  - (* control get: the last record stored *)
+    assert (I0 : minv st sp) by (split; auto).
+    exists st. rewrite C. destruct (sfind 0 st); cbn [option_map fst snd];
+      (split; [reflexivity|exact I0]).
   - (* last *)
-    exists st, present. cbn [fst snd]. rewrite (spec_eta sp), M. rewrite <- last_abs by auto.
-    rewrite <- M, <- spec_eta. repeat split; auto.
+    exists st. cbn [fst snd]. rewrite (spec_eta sp), M. rewrite <- last_abs by auto.
+    rewrite <- M, <- spec_eta. split; [reflexivity|]. split; auto.
   - (* nearest *)
     cbn in Hb, Hz. apply andb_true_iff in Hb. destruct Hb as [Hb1 Hb2].
     apply N.ltb_lt in Hb1, Hb2. apply N.leb_le in Hz.
     rewrite (nearest_abs idb st (s_ctl sp)) by (auto; lia). rewrite <- M, <- spec_eta.
-    exists st, present. cbn [fst snd]. repeat split; auto.
+    exists st. cbn [fst snd]. split; [reflexivity|]. split; auto.
   - (* range *)
     cbn in Hb, Hz. apply N.leb_le in Hz.
     rewrite (range_abs idb mem_fetch st (s_ctl sp)); auto.
-    + rewrite <- M, <- spec_eta. exists st, present. cbn [fst snd]. unfold spec_range.
-      repeat split; auto.
+    + rewrite <- M, <- spec_eta. exists st. cbn [fst snd]. unfold spec_range.
+      split; [reflexivity|]. split; auto.
     + apply bound_slast; auto.
-  - exists st, present. cbn [fst snd]. repeat split; auto.
+  - exists st. cbn [fst snd]. split; [reflexivity|]. split; auto.
 Qed.
 
-Lemma mem_ctl_ok_single : forall present o r,
-  mem_ctl_ok_from present (o :: r) = true -> mem_ctl_ok_from present [o] = true.
-Proof.
-  intros present o r H. destruct o; cbn in *; auto;
-  apply andb_true_iff in H; destruct H as [H _]; rewrite H; reflexivity.
-Qed.
-
-Lemma mem_run_refines : forall ops st sp present,
-  minv st sp present -> forallb op_bounded ops = true -> zero_free ops = true ->
-  mem_ctl_ok_from present ops = true ->
+Lemma mem_run_refines : forall ops st sp,
+  minv st sp -> forallb op_bounded ops = true -> zero_free ops = true ->
   mem_run st ops = Some (snd (spec_run sp ops)).
 Proof.
-  induction ops as [|o r IH]; intros st sp present I Hb Hz Hc; [reflexivity|].
+  induction ops as [|o r IH]; intros st sp I Hb Hz; [reflexivity|].
   cbn [forallb] in Hb. unfold zero_free in Hz. cbn [forallb] in Hz.
   apply andb_true_iff in Hb, Hz. destruct Hb as [Hb1 Hb2]. destruct Hz as [Hz1 Hz2].
-  destruct (mem_step_refines st sp present o I Hb1 Hz1 (mem_ctl_ok_single _ _ _ Hc))
-    as [st' [present' [E [I' Hc']]]].
-  cbn [mem_run spec_run]. rewrite E.
+  destruct (mem_step_refines st sp o I Hb1 Hz1) as [st' [E I']].
+  unfold mem_run, mem_step in *. cbn [mem_run_gen spec_run]. rewrite E.
   destruct (spec_step sp o) as [sp1 x] eqn:Es. cbn [fst snd] in *.
-  specialize (IH st' sp1 present' I' Hb2 Hz2 (Hc' r Hc)). rewrite IH.
+  specialize (IH st' sp1 I' Hb2 Hz2). rewrite IH.
   destruct (spec_run sp1 r) as [sp2 xs]. reflexivity.
 Qed.
 
-Lemma minv_empty : minv mem_empty spec_empty false.
+Lemma minv_empty : minv mem_empty spec_empty.
 Proof. split; cbn; auto. intros; discriminate. Qed.
 
-(* every operation sequence that writes the control record at most once and never reads it *)
-Lemma c26_mem_partial_lemma : forall ops,
-  forallb op_bounded ops = true -> zero_free ops = true -> mem_ctl_ok ops = true ->
+(* the memory persister at full strength: every operation sequence, control record included *)
+Lemma c26_mem_refines_lemma : forall ops,
+  forallb op_bounded ops = true -> zero_free ops = true ->
   mem_outputs ops = Some (spec_outputs ops).
-Proof. intros. apply (mem_run_refines ops mem_empty spec_empty false minv_empty); auto. Qed.
+Proof. intros. apply (mem_run_refines ops mem_empty spec_empty minv_empty); auto. Qed.
+
+(* [ops_wf] (the file persister's hypothesis) is stronger than what the memory persister needs *)
+Lemma ops_wf_bounded : forall ops, forallb (fun o => op_bounded o) ops = true -> forallb op_bounded ops = true.
+Proof. auto. Qed.
 
 (* oracle form *)
 Lemma N_eqb_list_refl : forall l, bytes_eqb l l = true.
@@ -198,11 +220,14 @@ Proof.
   - intros ->. apply c26_ok_spec.
 Qed.
 
-(* ---- the control record of the memory persister (finding F30) ---- *)
-Lemma c26_mem_refuted_lemma :
+(* ---- the control record of the memory persister BEFORE commit 760121b (finding F30) ---- *)
+Lemma c26_mem_orig_refuted_lemma :
   (* reading the control record back *)
-  c26_ok [OCtlPut 5 7; OCtlGet] (mem_outputs [OCtlPut 5 7; OCtlGet]) = false /\
+  c26_ok [OCtlPut 5 7; OCtlGet] (mem_outputs_orig [OCtlPut 5 7; OCtlGet]) = false /\
   (* a second control put is refused *)
-  mem_outputs [OCtlPut 5 7; OCtlPut 6 8] = Some [RBool true; RBool false] /\
-  spec_outputs [OCtlPut 5 7; OCtlPut 6 8] = [RBool true; RBool true].
+  mem_outputs_orig [OCtlPut 5 7; OCtlPut 6 8] = Some [RBool true; RBool false] /\
+  spec_outputs [OCtlPut 5 7; OCtlPut 6 8] = [RBool true; RBool true] /\
+  (* the repaired code on the same inputs *)
+  mem_outputs [OCtlPut 5 7; OCtlGet; OCtlPut 6 8; OCtlGet] =
+    Some [RBool true; RCtl (Some (5, 7)); RBool true; RCtl (Some (6, 8))].
 Proof. repeat split; vm_compute; reflexivity. Qed.
